@@ -516,14 +516,27 @@ def check_c09(prop, tier):
         def transient_dir(sc):
             ex = [any(t[p_]['ex'] for p_ in ('d/c', 'd/e')) for t in sc['prefixTrees']]
             return not ex[0] and any(ex) and not ex[-1]
-        forced = []
+        # ... and series in which a file goes away and comes back (what the re-created file inherits must not depend on
+        # whether the deletion was saved in between)
+        def recreated(sc):
+            for p_ in ('a', 'b', 'd/c', 'd/e'):
+                ex = [t[p_]['ex'] for t in sc['prefixTrees']]
+                if ex[0] and not all(ex) and ex[-1]:
+                    return True
+            return False
+        forced, forced2 = [], []
         for l in rlines:
-            if '\\"new\\":\\"d/e\\"' in l or '\\"new\\":\\"d/c\\"' in l:
-                sc = json.loads(json.loads(l))
-                if not sc['outs'][0]['out']['adversarial'] and transient_dir(sc):
-                    forced.append(sc)
+            dirs_ = '\\"new\\":\\"d/e\\"' in l or '\\"new\\":\\"d/c\\"' in l
+            sc = json.loads(json.loads(l)) if (dirs_ or '\\"kind\\":\\"C\\"' in l) else None
+            if sc is None or sc['outs'][0]['out']['adversarial']:
+                continue
+            if dirs_ and transient_dir(sc):
+                forced.append(sc)
+            elif sc['outs'][0]['out']['exit'] == 0 and recreated(sc):
+                forced2.append(sc)
         if len(forced) > (300 if tier == 'quick' else 3000):
             forced = rnd.sample(forced, 300 if tier == 'quick' else 3000)
+        forced += forced2 if len(forced2) <= 300 else rnd.sample(forced2, 300 if tier == 'quick' else 3000)
         sjobs = [(sc, [['1'], ['-a']], 1 + i % 2, i % 2) for i, sc in enumerate(forced)]
         nforced = len(sjobs)
         for li, line in enumerate(pick):
@@ -543,7 +556,7 @@ def check_c09(prop, tier):
             for cat, msg in probs:
                 nb += 1
                 res.violation('split:' + cat, 'a push split into %s differs from the single push -a: %s' % (plan, msg), {'tree0': sc['tree0'], 'series': sc['series'], 'plan': plan, 'threads': threads})
-        res.cov['parts']['split-scenarios'].update({'scenarios': len(sjobs), 'with_transient_directory': nforced, 'bad': nb})
+        res.cov['parts']['split-scenarios'].update({'scenarios': len(sjobs), 'with_transient_directory_or_recreated_file': nforced, 'bad': nb})
         res.cov['traces_validated_against_impl'] += len(sjobs)
         ninv = sum(len(c['plan']) for c in cases)
         res.cov['parts']['sessions'] = {'sessions': len(cases), 'invocations': ninv, 'with_failure': sum(1 for c in cases if c['fail']),
